@@ -150,7 +150,7 @@ def generate(rng, prop, tier):
         # a long-lived table whose row count is about to pass a round number while the clients run
         pre.append({'op': 'pre', 'k': 'keyH', 'v': 'init-h'})
         history = rng.choice([1000, 1000, 512, 2000]) - len(pre) - rng.randint(1, 3)
-    return {'engine': 'racesim', 'prop': prop, 'backend': B.config(label, B.odd_name(rng, label, 'r0')), 'ops': pre,
+    return {'engine': 'racesim', 'prop': prop, 'backend': B.with_link(rng, label, B.config(label, B.odd_name(rng, label, 'r0')), 0.12), 'ops': pre,
             'history': history,
             'skew': [rng.weighted([(6, 0), (2, 90), (1, 3600), (1, -3600)]) for _ in clients],
             'clients': clients, 'sseed': rng.below(1 << 30), 'kseed': rng.below(1 << 30),
